@@ -18,7 +18,8 @@ EXPLANATION = (
     "update before the handler returns; (T3) the kick descriptor is added to the worker's epoll set only under "
     "`started && enabled` and removed otherwise, with one id; (T4) the worker's dispatch gate reads the same state as "
     "the registration predicate and the kick eventfd is consumed only when the gate is true; (T5) the registration is "
-    "level-triggered (plain IN).")
+    "level-triggered (plain IN)."
+    " T1/T2 are decided on the control handlers with the daemon handler's private helpers inlined: mutations cannot be skipped by a loop iteration, RESET_DEVICE's loop is unconditional, the PROTOCOL_FEATURES test reads this message's features, a kick descriptor is dropped only after the registration update that follows the stop; T3 additionally: add/delete conditions hold on every path (path-sensitive), the update always decides once the owner is found, and only the registration update and the listener API change the epoll set.")
 NOT_DECIDED = "Sequences of messages (checked transition by transition), eventual delivery, real epoll behaviour."
 
 # handler -> list of (mutator, expected argument): 'param:<name>' | 'const:<v>' | 'none'
